@@ -60,7 +60,7 @@ func (t *Tracer) Emit(e Event, nontrivial bool) {
 	if e.R == nil {
 		e.R = []any{}
 	}
-	if tooBig(e.A) {
+	if tooBigAt(e.A, farLimit) {
 		t.dropped++ // arguments not expressible in TLC's 32-bit integers: not a case
 		return
 	}
@@ -311,36 +311,39 @@ func stringifyBig(v any) any {
 const modelIntLimit = int64(1) << 30
 
 // tooBig reports whether a value contains an integer TLC could not represent.
-func tooBig(v any) bool {
+func tooBig(v any) bool { return tooBigAt(v, modelIntLimit) }
+
+// tooBigAt: arguments are held to the tighter bound beyond which results cannot be projected (farLimit)
+func tooBigAt(v any, lim int64) bool {
 	switch x := v.(type) {
 	case map[string]any:
 		for _, y := range x {
-			if tooBig(y) {
+			if tooBigAt(y, lim) {
 				return true
 			}
 		}
 	case []any:
 		for _, y := range x {
-			if tooBig(y) {
+			if tooBigAt(y, lim) {
 				return true
 			}
 		}
 	case []int64:
 		for _, y := range x {
-			if y >= modelIntLimit || y <= -modelIntLimit {
+			if y >= lim || y <= -lim {
 				return true
 			}
 		}
 	case [][]int64:
 		for _, y := range x {
-			if tooBig(y) {
+			if tooBigAt(y, lim) {
 				return true
 			}
 		}
 	case int64:
-		return x >= modelIntLimit || x <= -modelIntLimit
+		return x >= lim || x <= -lim
 	case int:
-		return int64(x) >= modelIntLimit || int64(x) <= -modelIntLimit
+		return int64(x) >= lim || int64(x) <= -lim
 	}
 	return false
 }
